@@ -124,7 +124,7 @@ struct Model {
     Model() : matter(sys), forces(sys) {}
 };
 static const char* MOB[] = {"Pin", "Ball", "Slider", "Universal", "Free", "Cylinder", "Gimbal", "Weld", "LoneParticle", "Planar", "Translation", "Screw"};
-static int g_informative[NINTEG][NMETRIC], g_cases[NINTEG];
+static int g_informative[NINTEG][NMETRIC], g_cases[NINTEG], g_converge[NINTEG];
 
 static void runCase(uint64_t caseSeed) {
     vh::Rng r(caseSeed);
@@ -136,7 +136,7 @@ static void runCase(uint64_t caseSeed) {
     static const int ACC_FIRST[5] = {4, 5, 5, 6, 6};
     int accExp = integ >= 6 ? ACC_FIRST[r.below(5)] : ACC_GENERAL[r.below(12)];
     if (integ == 3 && accExp > 6) accExp = 6;                       // RungeKutta2 below 1e-6 costs up to seconds per trajectory
-    const int accExp2Max = integ >= 6 ? 6 : integ == 3 ? 7 : 8;     // tightest accuracy affordable for the second run
+    const int accExp2Max = integ == 6 ? 7 : (integ == 7 || integ == 3) ? 6 : 8;   // SemiExplicitEuler2 and RungeKutta2 are the expensive ones     // tightest accuracy affordable for the second run
     const double acc = std::pow(10.0, -accExp);
     const bool floating = scn == 2;
     const int nb = (scn >= 4) ? 1 + r.below(2) : 1 + r.below(5);
@@ -431,7 +431,7 @@ static void runCase(uint64_t caseSeed) {
             // constraint, wrong inertia ...) shows as a ratio near 1 whatever the integrator's constant
             double drift2 = 0; for (double e : tr2.E) drift2 = std::max(drift2, std::abs(e - tr2.E[0]));
             vh::P("energy_drift_decreases_with_accuracy", "traj.energy.converges." + IN + ACC, drift2 / (drift + 1e-9 * scale), CONVERGENCE[integ]);
-            vh::D("second_run." + IN);
+            vh::D("second_run." + IN); ++g_converge[integ];
         }
     }
     if (scn == 2) {
@@ -489,9 +489,11 @@ int main(int argc, char** argv) {
             vh::I("coverage").s(std::to_string((unsigned long long)a.seed)).i(a.n).emit();
             vh::O("coverage").i(0).emit();
             for (int k = 0; k < NINTEG; ++k) {
-                int e = g_informative[k][M_ENERGY] + g_informative[k][M_ENERGYC];
-                vh::P("informative_energy_cases_ge_3", std::string("traj.coverage.energy.") + INTEG_NAMES[k], std::max(0, 3 - e), 0);
-                std::printf("D informative.energy.%s.%d_of_%d\n", INTEG_NAMES[k], e, g_cases[k]);
+                // informative = judged by a bound that allows < 10 % of the scale, or by the accuracy-convergence ratio
+                int e = g_informative[k][M_ENERGY] + g_informative[k][M_ENERGYC], cv = g_converge[k];
+                const int need = a.n >= 1000 ? 10 : 2;
+                vh::P("informative_energy_cases", std::string("traj.coverage.energy.") + INTEG_NAMES[k], std::max(0, need - e - cv), 0);
+                std::printf("D informative.energy.%s.bound_%d.convergence_%d.of_%d\n", INTEG_NAMES[k], e, cv, g_cases[k]);
             }
         }
     } catch (const std::exception& e) {
